@@ -112,7 +112,8 @@ def run_thorough(prop, repo=None):
                 results.append({"id": m["id"], "kind": "mutant", "rule": m["rule"], "status": status,
                                 "reported": [o.ident() for o in (hit or new_fail)][:3],
                                 "what": m.get("desc", "")})
-                if status in ("SURVIVED", "broken-only") and not m.get("expect_broken"):
+                # (a mutant marked expect_broken must at least stop the check with exit 2; silence is a miss for it as well)
+                if status == "SURVIVED" or (status == "broken-only" and not m.get("expect_broken")):
                     broken.append(("selftest", "mutant %s (%s) was not reported by %s%s" % (
                         m["id"], m.get("desc", ""), m["rule"], " (analysis-broken instead: %s)" % r["broken"][:1] if r["broken"] else "")))
         finally:
